@@ -98,14 +98,46 @@ Definition ending_eqb (a b : ending) : bool :=
 Definition result_eqb (a b : logt * ending) : bool :=
   list_eqb entry_eqb (fst a) (fst b) && ending_eqb (snd a) (snd b).
 
-(* a case: exit_returns, config, world, oracle table, default for unlisted
-   sites, observed log, observed ending *)
+(* a case: exit_returns, config, world, oracle table (the sites the real run
+   consulted, with the decisions taken), observed log, observed ending.  The
+   model is evaluated three times: every site outside the table succeeding,
+   failing with OSError, failing with another exception - the real run never
+   consulted them, so the model must not depend on them either. *)
 Definition child_case :=
-  (bool * config * world * list (site * option errkind) * option errkind * logt * ending)%type.
+  (bool * config * world * list (site * option errkind) * logt * ending)%type.
 
 Definition check_child (cs : child_case) : bool :=
-  let '(er, c, w, t, d, l, e) := cs in
-  result_eqb (run er c w (oracle_of_dflt t d)) (l, e).
+  let '(er, c, w, t, l, e) := cs in
+  result_eqb (run er c w (oracle_of_dflt t None)) (l, e) &&
+  result_eqb (run er c w (oracle_of_dflt t (Some (EOS 1)))) (l, e) &&
+  result_eqb (run er c w (oracle_of_dflt t (Some EOther))) (l, e).
+
+(* all decision paths of one configuration at once, in a compact notation:
+   the configuration, the world and the (unique) observed execve call are
+   written once per group; the oracle table is read off the observed log
+   (site of each call, outcome observed there). *)
+Inductive centry := CE (c : call) (r : option errkind) | CX (r : option errkind).
+Definition o (c : call) := CE c None.
+Definition f (c : call) (n : Z) := CE c (Some (EOS n)).
+Definition x (c : call) := CE c (Some EOther).
+Definition xo := CX None.
+Definition xf (n : Z) := CX (Some (EOS n)).
+Definition xx := CX (Some EOther).
+
+Definition expand (ex : call) (l : list centry) : logt :=
+  map (fun e => match e with CE c r => (c, r) | CX r => (ex, r) end) l.
+
+Definition table_of (l : logt) : list (site * option errkind) :=
+  map (fun e => (site_of (fst e), snd e)) l.
+
+Definition child_group :=
+  (config * world * call * list (bool * list centry * ending))%type.
+
+Definition check_group (g : child_group) : bool :=
+  let '(c, w, ex, paths) := g in
+  forallb (fun p => let '(er, l, e) := p in
+                    let l := expand ex l in
+                    check_child (er, c, w, table_of l, l, e)) paths.
 
 (* drop_privileges alone: world, user, oracle table, observed log, observed
    result (Some (Some reason) / Some None for a returned value, None + kind when it raised) *)
